@@ -5,6 +5,7 @@ import AlphaG.Driver.C04
 import AlphaG.Driver.C05
 import AlphaG.Driver.C06
 import AlphaG.Driver.C07
+import AlphaG.Driver.C08
 import AlphaG.Driver.C13
 import AlphaG.Driver.C16
 import AlphaG.Driver.C17
@@ -21,6 +22,7 @@ def main : IO Unit := Driver.run [
   AlphaG.Driver.C05.handle,
   AlphaG.Driver.C06.handle,
   AlphaG.Driver.C07.handle,
+  AlphaG.Driver.C08.handle,
   AlphaG.Driver.C13.handle,
   AlphaG.Driver.C16.handle,
   AlphaG.Driver.C17.handle,
